@@ -398,6 +398,9 @@ package dagsync
 //@   shutdown closing
 //@   ensures-local old(ch) == nil ==> count("select{send:rmEventChan,recv:closing}") == 0
 //@   ensures ch == nil
+// it only asks the distributor to remove the channel (at most once): it starts nothing and reads nothing
+// itself - the notifications already queued are the listener's to read before the channel closes
+//@   ensures-local count("go:*") == 0 && count("send:rmEventChan") <= 1 && count("send:*") == count("send:rmEventChan")
 
 // Entries syncs follow the same shutdown protocol as SyncAdChain (C15) and fail without side effects (C04).
 //@ func (*Subscriber).syncEntries
@@ -627,3 +630,4 @@ package dagsync
 //@   requires ss != nil
 //@   modifies ss.err
 //@   ensures ss.err == err
+
